@@ -197,12 +197,16 @@ def build_obligation(inst):
         for name, src in aliases.items():
             leaves[name] = leaves[src]       # the very same array object: funsor sees one Tensor
         try:
-            with (reflect if optimize == "reflect" else lazy):
+            with (reflect if optimize in ("reflect", "reflect_opt") else lazy):
                 # under `lazy` substitutions into tensors are still performed at once; under `reflect` every
                 # constructor stays a term, so the tape sees Subs / Slice / Cat nodes as written
                 expr = build(prog, leaves)
                 if optimize is True:
                     expr = apply_optimizer(expr)
+            if optimize == "reflect_opt":
+                # a reflect-built expression (Subs / Slice / Cat terms as written) handed to the optimizer: its
+                # normalize pass performs the substitutions, so the tape is read like the `lazy` one
+                expr = apply_optimizer(expr)
             fwd, bwd = forward_backward(sum_op, prod_op, expr)
         except (NotImplementedError, ValueError, AssertionError, KeyError) as e:
             raise Decline("%s: %s" % (type(e).__name__, str(e)[:80]))
@@ -343,6 +347,13 @@ def instances(tier, seed):
         for p, al in gen_nested(rng, 40 if tier == "quick" else 400, sr[0], sr[1], sr[2]):
             for mode in (False, True, "reflect"):
                 out.append(("adj", sr, p, mode, al))
+    # appended after the seeded instances (their RNG stream is untouched): reflect-built expressions with leaf
+    # wrappers handed to apply_optimizer
+    rng2 = random.Random(seed * 7919 + 11)
+    for sr in SEMIRINGS:
+        for wrappers, repeat in ((True, False), (True, True)):
+            for p, al in gen_exprs(rng2, 12 if tier == "quick" else 150, sr[0], sr[1], sr[2], 4 if tier == "quick" else 5, wrappers, repeat):
+                out.append(("adj", sr, p, "reflect_opt", al))
     return out
 
 
@@ -350,7 +361,7 @@ def main():
     chk = Check("C11", "model_checking")
     insts = instances(chk.tier, chk.seed)
     chk.map("checks.c11", "worker", insts, chunksize=4)
-    chk.bounds = dict(leaves="1-4|5 occurrences; the same tensor may occur several times (as is, or with an input renamed)", variables=dict(VARS), semirings=[s[:2] for s in SEMIRINGS], optimizer="built under lazy (with and without apply_optimizer) and under reflect",
+    chk.bounds = dict(leaves="1-4|5 occurrences; the same tensor may occur several times (as is, or with an input renamed)", variables=dict(VARS), semirings=[s[:2] for s in SEMIRINGS], optimizer="built under lazy (with and without apply_optimizer), under reflect, and under reflect followed by apply_optimizer (there the optimizer evaluates the wrappers, the original leaves are no longer on the tape: forward value only)",
                       wrappers="renaming, slice, Cat with a sibling leaf, injective index substitution (a concrete permutation; over a fresh name and over the SAME name as the replaced input)")
     chk.assumptions = ["assume-guarantee cut: ops.logsumexp replaced by its specification; maxima of detached log-space arrays abstracted",
                        "plate (product) reductions and their safe inverses are not covered", "repeated occurrences of one tensor are handled by the product rule (one one-hot substitution per occurrence, summed)"]
